@@ -345,6 +345,6 @@ def shards(tier, props, known):
             out.append(("make_cli", "fault-%s-%d" % (entry, i),
                         dict(entry=entry, script_idx=i, faults=True,
                              placeholders=(("none", "base-null", "both-null") if entry == "nbmerge" else ("none", "base-empty"))
-                             if tier == "thorough" else ("none",),
+                             if (tier == "thorough" or i == 0) else ("none",),
                              strats=(0,), **kw)))
     return out
